@@ -423,8 +423,18 @@ def build_random(case):
             if symb in (1, 2) and o[0] in ("idx", "idxd", "imm", "abs", "rel", "reld", "num"):
                 name = f"kz{nsym}"
                 nsym += 1
-                (pre if symb == 1 else post).append({"k": "assign", "name": name, "e": m[-1]})
-                m = m[:-1] + (("sym", name),)
+                if o[0] in ("idx", "idxd") and nsym % 2 and abs(m[-1][1]) < 0o170000:
+                    # a compound index expression 'sym+d(rN)' / '-sym(rN)': pdpy11 regroups ("hoists") the register out of it
+                    d = 2 + nsym % 5
+                    if nsym % 3 == 0:
+                        (pre if symb == 1 else post).append({"k": "assign", "name": name, "e": ("num", -m[-1][1])})
+                        m = m[:-1] + (("un", "-", ("sym", name)),)
+                    else:
+                        (pre if symb == 1 else post).append({"k": "assign", "name": name, "e": ("num", m[-1][1] - d)})
+                        m = m[:-1] + (("bin", "+", ("sym", name), ("num", d)),)
+                else:
+                    (pre if symb == 1 else post).append({"k": "assign", "name": name, "e": m[-1]})
+                    m = m[:-1] + (("sym", name),)
             mops.append(m)
         return {"k": "insn", "mn": mn, "ops": mops}
 
